@@ -84,10 +84,10 @@ ASMJIT_FAVOR_SIZE Error init_func_detail(FuncDetail& func, const FuncSignature& 
 
   // Minimum stack size of a single argument passed via stack. The standard AArch64 calling convention
   // specifies 8 bytes, so each function argument would occupy at least 8 bytes even if it needs less.
-  // However, Apple has decided to not follow this rule and function argument can occupy less, for
-  // example two consecutive 32-bit arguments would occupy 8 bytes total, instead of 16 as specified
-  // by ARM.
-  uint32_t min_stack_arg_size = cc.strategy() == CallConvStrategy::kAArch64Apple ? 4u : 8u;
+  // However, Apple has decided to not follow this rule and function argument only occupies its size
+  // (and is aligned to it), for example two consecutive 32-bit arguments would occupy 8 bytes total,
+  // instead of 16 as specified by ARM, and four consecutive 8-bit arguments would occupy 4 bytes.
+  uint32_t min_stack_arg_size = cc.strategy() == CallConvStrategy::kAArch64Apple ? 1u : 8u;
 
   if (func.has_ret()) {
     for (uint32_t value_index = 0; value_index < Globals::kMaxValuePack; value_index++) {
@@ -155,10 +155,9 @@ ASMJIT_FAVOR_SIZE Error init_func_detail(FuncDetail& func, const FuncSignature& 
             gpz_pos++;
           }
           else {
+            // Each argument is aligned to its size (or to the minimum argument size), vectors to 16 bytes.
             uint32_t size = Support::max<uint32_t>(TypeUtils::size_of(type_id), min_stack_arg_size);
-            if (size >= 8) {
-              stack_offset = Support::align_up(stack_offset, 8);
-            }
+            stack_offset = Support::align_up(stack_offset, Support::min<uint32_t>(size, 16u));
             arg.assign_stack_offset(int32_t(stack_offset));
             stack_offset += size;
           }
@@ -184,10 +183,9 @@ ASMJIT_FAVOR_SIZE Error init_func_detail(FuncDetail& func, const FuncSignature& 
             vec_pos++;
           }
           else {
+            // Each argument is aligned to its size (or to the minimum argument size), vectors to 16 bytes.
             uint32_t size = Support::max<uint32_t>(TypeUtils::size_of(type_id), min_stack_arg_size);
-            if (size >= 8) {
-              stack_offset = Support::align_up(stack_offset, 8);
-            }
+            stack_offset = Support::align_up(stack_offset, Support::min<uint32_t>(size, 16u));
             arg.assign_stack_offset(int32_t(stack_offset));
             stack_offset += size;
           }
